@@ -615,6 +615,9 @@ pub fn fuzz_stage(
             .arg(format!("-max_len={}", max_len))
             .arg(format!("-artifact_prefix={}", art.display()))
             .arg("-print_final_stats=1")
+            // safety valve only: the stage is sized by -runs; a worker that meets slow inputs
+            // stops after 20 minutes with fewer executions (reported), never with a verdict
+            .arg("-max_total_time=1200")
             .env("VERIF_FUZZ_OUT", &out_dir)
             .env("RUST_BACKTRACE", "0")
             .stdin(std::process::Stdio::null())
